@@ -41,7 +41,7 @@ def rule_branch(ctx):
     f = _drv_method(p, "message_from_client")
     gp = p.cls("indi.message.get_properties.GetProperties")
     # two drivers in one process (built by interpreting the real constructors); requests go to DEVA
-    own = ["V1", "V2", "V22", "V3", "V4"]
+    own = ["V1", "V2", "V22", "V3", "V4", "V5"]  # V5 is declared disabled: it answers (with delProperty), it is not skipped
     cases = [(None, own), ("", own), ("V2", ["V2"]), ("NOPE", []), ("V3", ["V3"]), ("V", []), ("v2", []), ("V22", ["V22"]), ("W9", [])]
     bad = False
     for name, expect in cases:
@@ -72,7 +72,7 @@ def rule_branch(ctx):
                     got.append(f"?{show(a)[:30] if a is not None else None}")
             want = [f"DEVA.{v}" for v in expect]
             if got != want:
-                ctx.violated("C07.BRANCH", f.short, f"getProperties(device=DEVA, name={name!r}) is answered by DEVA with definitions of {got}, expected {want} (a second driver DEVB with properties V1, W9 exists in the same process)", fi=f, text=f"answer:{name}:{got}", witness=f"drivers DEVA(V1,V2,V22,V3,V4) and DEVB(V1,W9); <getProperties device='DEVA' name={name!r}>")
+                ctx.violated("C07.BRANCH", f.short, f"getProperties(device=DEVA, name={name!r}) is answered by DEVA with definitions of {got}, expected {want} (a second driver DEVB with properties V1, W9 exists in the same process)", fi=f, text=f"answer:{name}:{got}", witness=f"drivers DEVA(V1,V2,V22,V3,V4,V5) and DEVB(V1,W9); <getProperties device='DEVA' name={name!r}>")
                 bad = True
     if not bad:
         ctx.holds("C07.BRANCH", f.short, f"{len(cases)} request shapes answered with exactly the requested definitions of the addressed driver (two drivers constructed in one process)", fi=f)
